@@ -90,3 +90,13 @@ def match_known(known, cid, program_text, why):
         if k['property'] == cid and re.search(k['why_regex'], why):
             return k['what']
     return None
+
+PROPS['C01'] = P(
+    ['reachable_wf', 'step_wf', 'dispatch_exact', 'dispatch_removal_exact', 'dispatch_despawn_exact', 'only_triggers_schedule',
+     'register_typewide_adds_one', 'register_entity_adds_one', 'register_despawn_adds_one', 'registrations_frame'],
+    ['dispatch', 'mixed', 'xw'], 'dispatch', determined=True,
+    assumes=['TypeId hashing: type tags are distinct (HashMap keyed by TypeId modelled as an association list with distinct keys)'])
+PROPS['C06'] = P(
+    ['revoke_exact', 'revoke_exact_distinct', 'revoke_is_complete', 'revoke_is_local', 'revoke_is_immediate', 'revoke_twice', 'revoke_keeps_wf'],
+    ['dispatch', 'lifetime', 'xw'], 'dispatch', determined=True,
+    assumes=['S1: completeness/idempotence theorems assume distinct_regs (one registration per (reactor, key)); revoke_exact states the behaviour without it'])
